@@ -220,7 +220,12 @@ impl<T> TransientSource<T> {
     /// your own event source's `process_events()`, and the source will be
     /// unregistered as needed after it exits.
     pub fn remove(&mut self) {
-        self.state.replace_state(TransientSourceState::Remove);
+        if matches!(self.state, TransientSourceState::Disabled(_)) {
+            // The source is already unregistered, all that is left to do is drop it.
+            self.state = TransientSourceState::None;
+        } else {
+            self.state.replace_state(TransientSourceState::Remove);
+        }
     }
 
     /// Replace the currently wrapped source with the given one.  No more events
@@ -234,8 +239,14 @@ impl<T> TransientSource<T> {
     /// your own event source's `process_events()`, and the sources will be
     /// registered and unregistered as needed after it exits.
     pub fn replace(&mut self, new: T) {
-        self.state
-            .replace_state(|old| TransientSourceState::Replace { new, old });
+        if matches!(self.state, TransientSourceState::Disabled(_)) {
+            // The old source is already unregistered: it can be dropped right away,
+            // only the new one needs to be registered.
+            self.state = TransientSourceState::Register(new);
+        } else {
+            self.state
+                .replace_state(|old| TransientSourceState::Replace { new, old });
+        }
     }
 }
 
